@@ -1460,6 +1460,7 @@ def variant(r, base_recipe, k):
         "attr-value-space": None,
         "string-unicode": None,
         "attr-scalar": None,
+        "renest": None,
         "attr-key-rename": None,
         "attr-key-replace": None,
         "attr-edge-value": None,
@@ -1583,6 +1584,22 @@ def apply_variant(r, root, k, op):
         s_ = r.choice(strs)
         s_.replace_with(type(s_)(raw(s_) + r.choice(["\U0001f600", "\ud800", "\x00", "e\u0301", "\u00e9", "\u212b", "\u00c5"])))
         return True
+    if k == "renest":
+        # the same elements in the same document order, nested differently below the top level: an element moves to the end of
+        # its previous sibling tag, or the last child of a tag moves out to just after it (a close tag shifted)
+        down = [t for t in nodes[1:] if t.parent is not root and is_tag(t.previous_sibling) and not t.previous_sibling.is_empty_element]
+        up = [t for t in nodes[1:] if is_tag(t) and t.parent is not None and t.parent is not root and t.contents]
+        if not down and not up:
+            down = [t for t in nodes[1:] if is_tag(t.previous_sibling)]
+            if not down:
+                return False
+        if down and (not up or r.random() < 0.6):
+            t = r.choice(down)
+            t.previous_sibling.append(t.extract())
+        else:
+            t = r.choice(up)
+            t.insert_after(t.contents[-1].extract())
+        return True
     if k in ("attr-key-rename", "attr-key-replace", "attr-edge-value"):
         # same NUMBER of attributes, exactly one key missing / one value exchanged between the "empty-looking" legal values
         edge = lambda v: v is None or v is False or v == 0 or v == "" or v == []
@@ -1615,7 +1632,7 @@ def apply_variant(r, root, k, op):
     raise ValueError(k)
 
 
-VARIANTS = ["attr-key-rename", "attr-key-replace", "attr-edge-value", "namespace", "settings", "tag-class", "name-case", "attr-key-case", "attr-value-space", "string-unicode", "attr-scalar", "rename", "attr-value", "attr-del", "list-append", "child-removed", "child-added", "tag-added", "string-class",
+VARIANTS = ["renest", "attr-key-rename", "attr-key-replace", "attr-edge-value", "namespace", "settings", "tag-class", "name-case", "attr-key-case", "attr-value-space", "string-unicode", "attr-scalar", "rename", "attr-value", "attr-del", "list-append", "child-removed", "child-added", "tag-added", "string-class",
             "string-text", "attr-order", "move", "prefix", "hidden", "wrap", "list-class", "str-vs-list"]
 
 
